@@ -112,6 +112,7 @@ type chState struct {
 	fired   bool
 	stopped bool
 	fn      func() // AfterFunc
+	period  time.Duration // > 0: a ticker (re-arms itself when it fires; a tick nobody took yet is dropped)
 	seq     int
 	keep    any // keeps the real channel alive so its address is not reused within an execution
 }
@@ -1390,7 +1391,7 @@ func (t *Timer) Reset(d time.Duration) bool {
 	e := E
 	s := t.st
 	was := !s.fired && !s.stopped
-	if !was {
+	if !was && !e.hasTimer(s) {
 		e.timers = append(e.timers, s)
 	}
 	s.fired, s.stopped = false, false
@@ -1420,6 +1421,86 @@ func (t *Timer) Stop() bool {
 	t.st.stopped = true
 	E.touch(&t.st.hb)
 	return was
+}
+
+// Ticker is time.Ticker on the virtual clock.
+type Ticker struct {
+	C    <-chan time.Time
+	st   *chState
+	real *time.Ticker
+}
+
+// NewTicker is time.NewTicker on the virtual clock.
+//
+//go:norace
+func NewTicker(d time.Duration) *Ticker {
+	if d <= 0 {
+		panic("non-positive interval for NewTicker")
+	}
+	if Native {
+		rt := time.NewTicker(d / NativeScale)
+		return &Ticker{C: rt.C, real: rt}
+	}
+	ch := make(chan time.Time, 1)
+	if !active() {
+		return &Ticker{C: ch}
+	}
+	st := E.newTimer(d, ch, nil)
+	st.period = d
+	E.touch()
+	return &Ticker{C: ch, st: st}
+}
+
+// Tick is time.Tick.
+//
+//go:norace
+func Tick(d time.Duration) <-chan time.Time {
+	if d <= 0 {
+		return nil
+	}
+	return NewTicker(d).C
+}
+
+//go:norace
+func (t *Ticker) Stop() {
+	if t.real != nil {
+		t.real.Stop()
+		return
+	}
+	if t.st == nil || !active() {
+		return
+	}
+	Point()
+	t.st.stopped = true
+	E.touch(&t.st.hb)
+}
+
+// Reset stops the ticker and sets its period; the next tick arrives after the new period.
+//
+//go:norace
+func (t *Ticker) Reset(d time.Duration) {
+	if d <= 0 {
+		panic("non-positive interval for Ticker.Reset")
+	}
+	if t.real != nil {
+		t.real.Reset(d / NativeScale)
+		return
+	}
+	if t.st == nil || !active() {
+		return
+	}
+	Point()
+	e := E
+	s := t.st
+	if s.stopped && !e.hasTimer(s) {
+		e.timers = append(e.timers, s)
+	}
+	s.stopped, s.fired = false, false
+	s.period = d
+	s.at = e.now + d
+	e.timerSeq++
+	s.seq = e.timerSeq
+	e.touch(&s.hb)
 }
 
 // ---------------------------------------------------------------- scheduler
@@ -1526,6 +1607,16 @@ func (e *Exec) fullSig() [2]uint64 {
 	return s
 }
 
+//go:norace
+func (e *Exec) hasTimer(s *chState) bool {
+	for _, x := range e.timers {
+		if x == s {
+			return true
+		}
+	}
+	return false
+}
+
 // pendingTimers returns live timers sorted by (deadline, creation).
 //
 //go:norace
@@ -1552,6 +1643,22 @@ func (e *Exec) fire(s *chState) {
 	s.fired = true
 	if s.at > e.now {
 		e.now = s.at
+	}
+	if s.period > 0 {
+		// a ticker: hand the tick to a waiting receiver, or leave one in the channel (capacity 1: a tick that
+		// finds the previous one still there is dropped), and arm the next one
+		var w *waiter
+		w, s.recvq = firstLive(s.recvq)
+		if w != nil {
+			complete(w)
+		} else {
+			s.n = 1
+		}
+		s.fired = false
+		s.at += s.period
+		e.timerSeq++
+		s.seq = e.timerSeq
+		return
 	}
 	if s.fn != nil {
 		e.spawn(nil, "timer", []int32{-1, int32(s.seq)}, s.fn)
